@@ -37,6 +37,9 @@ type c20cCase struct {
 	Configs []vw.ClusterSpec `json:"configs"`
 	Readers int              `json:"readers"`
 	Yield   []int            `json:"yield"`
+	// Workers: service events are delivered by this many goroutines; the events of one service stay on one of them, in
+	// order (what a work queue guarantees per key). 0/1 = the production setting (one worker per reconciler).
+	Workers int `json:"workers,omitempty"`
 }
 
 func c20cConfig(rt *rapid.T) vw.ClusterSpec {
@@ -68,25 +71,31 @@ func genC20c(rt *rapid.T) c20cCase {
 		c.Configs = append(c.Configs, c20cConfig(rt))
 	}
 	c.Yield = rapid.SliceOfN(rapid.IntRange(0, 3), 8, 8).Draw(rt, "yield")
+	if rapid.IntRange(0, 2).Draw(rt, "twoWorkers") == 0 {
+		c.Workers = 2
+	}
 	return c
 }
 
 type c20cWorld struct {
-	c     *controller
-	lis   *k8s.Listener
-	store map[string]*v1.Service
-	logMu sync.Mutex
-	log   []c20cEntry
-	pools []*config.Pools
-	cur   string
-	curP  int
+	c       *controller
+	lis     *k8s.Listener
+	storeMu sync.Mutex // the harness's API server: not part of the code under test
+	store   map[string]*v1.Service
+	logMu   sync.Mutex
+	log     []c20cEntry
+	pools   []*config.Pools
+	curP    int
 }
 
 type c20cEntry struct {
 	Kind string
 	Idx  int
 	Key  string
+	Svc  *v1.Service // S: the object the handler was given (nil = deleted)
 }
+
+func (e c20cEntry) String() string { return fmt.Sprintf("%s%d%s", e.Kind, e.Idx, e.Key) }
 
 type c20cClient struct{ w *c20cWorld }
 
@@ -94,6 +103,8 @@ func (c20cClient) Infof(*v1.Service, string, string, ...interface{})  {}
 func (c20cClient) Errorf(*v1.Service, string, string, ...interface{}) {}
 func (f c20cClient) UpdateStatus(svc *v1.Service) error {
 	// only ever called from inside the service handler, i.e. on the service goroutine
+	f.w.storeMu.Lock()
+	defer f.w.storeMu.Unlock()
 	if o := f.w.store[svc.Namespace+"/"+svc.Name]; o != nil {
 		o.Status = *svc.Status.DeepCopy()
 		o.Annotations = map[string]string{}
@@ -117,7 +128,11 @@ func newC20cWorld(c c20cCase) (*c20cWorld, error) {
 	}
 	w.lis = &k8s.Listener{
 		ServiceChanged: func(l log.Logger, name string, svc *v1.Service, eps []discovery.EndpointSlice) controllers.SyncState {
-			w.logf(c20cEntry{Kind: "S", Key: w.cur})
+			var snap *v1.Service
+			if svc != nil {
+				snap = svc.DeepCopy()
+			}
+			w.logf(c20cEntry{Kind: "S", Key: name, Svc: snap})
 			return w.c.SetBalancer(l, name, svc, eps)
 		},
 		PoolChanged: func(l log.Logger, p *config.Pools) controllers.SyncState {
@@ -134,8 +149,11 @@ func (w *c20cWorld) logf(e c20cEntry) {
 	w.logMu.Unlock()
 }
 
-func (w *c20cWorld) apply(op c20cOp) string {
+func (w *c20cWorld) apply(op c20cOp, idx int) string {
 	key := op.Spec.Key()
+	w.storeMu.Lock()
+	defer w.storeMu.Unlock()
+	w.logf(c20cEntry{Kind: "U", Idx: idx})
 	if op.Delete {
 		delete(w.store, key)
 		return key
@@ -152,25 +170,28 @@ func (w *c20cWorld) apply(op c20cOp) string {
 
 // deliver returns true if the handler asked for a full re-sync.
 func (w *c20cWorld) deliver(key string) bool {
-	w.cur = key
 	var svc *v1.Service
+	w.storeMu.Lock()
 	if o := w.store[key]; o != nil {
 		svc = o.DeepCopy()
 	}
+	w.storeMu.Unlock()
 	return w.lis.ServiceHandler(log.NewNopLogger(), key, svc, nil) == controllers.SyncStateReprocessAll
 }
 
 func (w *c20cWorld) resync() {
 	for pass := 0; pass < 20; pass++ {
 		var keys []string
-		for k := range w.store {
+		w.storeMu.Lock()
+		n := map[string]int{}
+		for k, o := range w.store {
 			keys = append(keys, k)
+			n[k] = len(o.Status.LoadBalancer.Ingress)
 		}
+		w.storeMu.Unlock()
 		sort.Strings(keys)
 		// as reprocessAll: services with more recorded addresses first
-		sort.SliceStable(keys, func(i, j int) bool {
-			return len(w.store[keys[i]].Status.LoadBalancer.Ingress) > len(w.store[keys[j]].Status.LoadBalancer.Ingress)
-		})
+		sort.SliceStable(keys, func(i, j int) bool { return n[keys[i]] > n[keys[j]] })
 		again := false
 		for _, k := range keys {
 			if w.deliver(k) {
@@ -212,38 +233,54 @@ func runC20c(c c20cCase, tr *vw.Trace) *vw.Violation {
 			time.Sleep(time.Microsecond)
 		}
 	}
-	go func() {
-		defer close(svcDone)
-		for i, op := range c.Ops {
-			key := w.apply(op)
-			w.logf(c20cEntry{Kind: "U", Idx: i})
-			if w.deliver(key) {
-				w.logf(c20cEntry{Kind: "R"})
-				w.resync()
-			}
-			yield(i)
-			select {
-			case <-reloadReq:
-				w.logf(c20cEntry{Kind: "R"})
-				w.resync()
-			default:
-			}
-		}
-		for {
-			select {
-			case <-reloadReq:
-				w.logf(c20cEntry{Kind: "R"})
-				w.resync()
-			case <-stop:
-				for len(reloadReq) > 0 {
-					<-reloadReq
+	workers := c.Workers
+	if workers < 1 {
+		workers = 1
+	}
+	var swg sync.WaitGroup
+	for wk := 0; wk < workers; wk++ {
+		swg.Add(1)
+		go func(wk int) {
+			defer swg.Done()
+			for i, op := range c.Ops {
+				if op.Svc%workers != wk {
+					continue
+				}
+				key := w.apply(op, i)
+				if w.deliver(key) {
 					w.logf(c20cEntry{Kind: "R"})
 					w.resync()
 				}
+				yield(i)
+				if wk == 0 {
+					select {
+					case <-reloadReq:
+						w.logf(c20cEntry{Kind: "R"})
+						w.resync()
+					default:
+					}
+				}
+			}
+			if wk != 0 {
 				return
 			}
-		}
-	}()
+			for {
+				select {
+				case <-reloadReq:
+					w.logf(c20cEntry{Kind: "R"})
+					w.resync()
+				case <-stop:
+					for len(reloadReq) > 0 {
+						<-reloadReq
+						w.logf(c20cEntry{Kind: "R"})
+						w.resync()
+					}
+					return
+				}
+			}
+		}(wk)
+	}
+	go func() { swg.Wait(); close(svcDone) }()
 	var wg sync.WaitGroup
 	wg.Add(1)
 	go func() {
@@ -307,9 +344,13 @@ func runC20c(c c20cCase, tr *vw.Trace) *vw.Violation {
 		last = e.Kind
 		switch e.Kind {
 		case "U":
-			w2.apply(c.Ops[e.Idx])
+			w2.apply(c.Ops[e.Idx], e.Idx)
 		case "S":
-			w2.deliver(e.Key)
+			var svc *v1.Service
+			if e.Svc != nil {
+				svc = e.Svc.DeepCopy()
+			}
+			w2.lis.ServiceHandler(log.NewNopLogger(), e.Key, svc, nil)
 		case "P":
 			w2.curP = e.Idx
 			w2.lis.PoolHandler(log.NewNopLogger(), w2.pools[e.Idx])
@@ -318,6 +359,9 @@ func runC20c(c c20cCase, tr *vw.Trace) *vw.Violation {
 	if switches > 2 {
 		tr.Class("handlers-interleaved")
 		tr.NonTrivial()
+	}
+	if workers > 1 {
+		tr.Class("two-service-workers")
 	}
 	want := w2.final()
 	if !reflect.DeepEqual(got, want) {
@@ -328,7 +372,7 @@ func runC20c(c c20cCase, tr *vw.Trace) *vw.Violation {
 
 func TestVerifC20Controller(t *testing.T) {
 	vw.Run(t, vw.Options{Property: "C20", Engine: "controller-concurrent",
-		Rule: "a service goroutine delivers 5..30 service events (4 services: ports, sharing keys, explicit pool / IP, type, deletion) and runs the re-syncs requested, a pool goroutine delivers 1..8 pool configurations (range changes, rename, buggy-address flag), 1..2 goroutines query CountersForPool; through the real Listener, built with -race; final statuses, allocator memory and counters compared with a serial replay in effect order; non-trivial = pool handlers interleaved with service handlers",
+		Rule:        "a service goroutine delivers 5..30 service events (4 services: ports, sharing keys, explicit pool / IP, type, deletion) and runs the re-syncs requested, a pool goroutine delivers 1..8 pool configurations (range changes, rename, buggy-address flag), 1..2 goroutines query CountersForPool; through the real Listener, built with -race; final statuses, allocator memory and counters compared with a serial replay in effect order; non-trivial = pool handlers interleaved with service handlers",
 		Assumptions: []string{"workloads whose result is a function of the handler order: one auto-assign pool, explicit pools / addresses otherwise (Allocate iterates a map over unpinned pools)", "interleavings are produced by the Go scheduler, not enumerated"}},
 		genC20c, runC20c)
 }
